@@ -482,7 +482,44 @@ func ruleForkRegistry(c *Ctx) {
 		}
 		lastIdx = preIdx
 	}
-	if found < 4 {
+	// an upgrade chained as `else if` onto another is skipped whenever the earlier one fires, although several forks may
+	// share one activation epoch
+	ast.Inspect(fd.Body, func(n ast.Node) bool {
+		ifs, ok := n.(*ast.IfStmt)
+		if !ok {
+			return true
+		}
+		if els, ok := ifs.Else.(*ast.IfStmt); ok {
+			isUp := false
+			ast.Inspect(els.Body, func(m ast.Node) bool {
+				if call, ok := m.(*ast.CallExpr); ok {
+					if f := calleeFunc(pk.TypesInfo, call); f != nil && strings.HasPrefix(f.Name(), "UpgradeTo") {
+						isUp = true
+					}
+				}
+				return true
+			})
+			if isUp {
+				c.bad("UpgradeMaybe.independent", els.Pos(), "an upgrade step is chained as `else if` onto the previous one: when both forks activate at the same slot only the first upgrade runs and, the trigger being slot equality, the second is never retried")
+			}
+		}
+		return true
+	})
+	expectUp := 0
+	for i := range forks {
+		if i == 0 {
+			continue
+		}
+		if _, ufd := c.P.findFunc("eth2/beacon/"+forkPkg(forks[i]), "UpgradeTo"+camel(forks[i])); ufd != nil {
+			expectUp++
+		}
+	}
+	if found < expectUp {
+		c.bad("UpgradeMaybe.complete", fd.Pos(), "%d independent upgrade steps for %d forks that have an upgrade function", found, expectUp)
+	} else {
+		c.ok("UpgradeMaybe.complete", fd.Pos(), "%d independent upgrade steps, one per fork with an upgrade function", found)
+	}
+	if found < 3 {
 		anchorFail("UpgradeMaybe: only %d upgrade branches found", found)
 	}
 
